@@ -15,8 +15,9 @@ FORMULATIONS = ["full", "flux_reduced", "pressure"]
 BACKENDS = {"full": ["direct"], "flux_reduced": ["direct", "amg", "cg"], "pressure": ["direct", "amg", "cg"]}
 
 
-def grid_of(shape, rng=None, iso=False):
+def grid_of(shape, rng=None, iso=False, scale=1.0):
     h = [1.0] * len(shape) if iso else [0.5, 0.25, 2.0][: len(shape)]
+    h = [scale * x for x in h]
     return darsia.Grid(tuple(shape), list(h)), h
 
 
@@ -49,7 +50,7 @@ def solver(method, grid, options, weight=None):
 
 def base_options(**kw):
     o = dict(num_iter=40, tol_residual=1e-9, tol_increment=1e-7, tol_distance=1e-9, L=1.0, return_info=True, verbose=False,
-             linear_solver="direct", formulation="pressure", linear_solver_options={"tol": 1e-12, "maxiter": 400},
+             linear_solver="direct", formulation="pressure", linear_solver_options={"rtol": 1e-11, "atol": 1e-13, "maxiter": 400},
              amg_options={"strength": "symmetric"})
     o.update(kw)
     return o
